@@ -73,23 +73,23 @@ Variable data : list Z.
 Variables nodata how : Z.
 Hypothesis Ht : topo ds sq.
 Hypothesis Hl : length data = size ds.
-Let out := fillnodata_downstream ds sq data nodata how.
+Let prs := fill_pairs ds sq data nodata how.
 Let P := rev sq.
+Notation pr c := (nth c prs (0, false)).
 
-(* merge the valid (non-nodata) values of the direct upstream cells, in processing order *)
-Definition merge_fold (vals : list Z) (start : Z) : Z :=
-  fold_left (fun acc v => if negb (v =? nodata) then (if acc =? nodata then v else merge how v acc) else acc) vals start.
+(* merge the values of the direct upstream cells that hold a value, in processing order *)
+Definition merge_fold (vals : list (Z * bool)) (start : Z * bool) : Z * bool :=
+  fold_left (fun (acc v : Z * bool) => if snd v then (if snd acc then (merge how (fst v) (fst acc), true) else (fst v, true)) else acc) vals start.
 
-Lemma fold_fdown_nodata (Fv : nat -> Z) j K : (forall c, In c K -> dsf ds c = j) -> nth j data 0 = nodata -> forall acc,
-  fold_left (fun acc c => fdown_g ds data nodata how c acc (Fv c)) K acc =
-  fold_left (fun acc v => if negb (v =? nodata) then (if acc =? nodata then v else merge how v acc) else acc) (map Fv K) acc.
+Lemma fold_fdown_nodata (Fv : nat -> Z * bool) j K : (forall c, In c K -> dsf ds c = j) -> nth j data 0 = nodata -> forall acc,
+  fold_left (fun acc c => fdown_g ds data nodata how c acc (Fv c)) K acc = merge_fold (map Fv K) acc.
 Proof.
-  intros Hk E. induction K as [|c K IH]; intros acc; simpl; auto.
+  intros Hk E. unfold merge_fold. induction K as [|c K IH]; intros acc; simpl; auto.
   rewrite IH by (intros x Hx; apply Hk; right; auto). f_equal.
   unfold fdown_g. rewrite (Hk c (or_introl eq_refl)), E, Z.eqb_refl. cbn [andb]. reflexivity.
 Qed.
 
-Lemma fold_fdown_valid (Fv : nat -> Z) j K : (forall c, In c K -> dsf ds c = j) -> nth j data 0 <> nodata -> forall acc,
+Lemma fold_fdown_valid (Fv : nat -> Z * bool) j K : (forall c, In c K -> dsf ds c = j) -> nth j data 0 <> nodata -> forall acc,
   fold_left (fun acc c => fdown_g ds data nodata how c acc (Fv c)) K acc = acc.
 Proof.
   intros Hk E. induction K as [|c K IH]; intros acc; simpl; auto.
@@ -97,28 +97,52 @@ Proof.
   unfold fdown_g. rewrite (Hk c (or_introl eq_refl)). destruct (Z.eqb_spec (nth j data 0) nodata); [contradiction|]. reflexivity.
 Qed.
 
-(* a cell holding a value keeps it; an empty cell gets the merge (min / max / sum) of the values that its
-   direct upstream cells end up with (which, for empty upstream cells, are in turn merges of THEIR
-   upstream cells: the nearest valid values upstream) *)
-Theorem fill_down_spec j : (j < size ds)%nat ->
-  nth j out 0 = if nth j data 0 =? nodata then merge_fold (map (fun c => nth c out 0) (kids ds P j)) nodata
-                else nth j data 0.
+(* (value, holds-a-value) of every cell: a cell holding a value keeps it; an empty cell gets the merge (min / max / sum)
+   of the values of those direct upstream cells that end up holding a value (which, for empty upstream cells, are in
+   turn merges of THEIR upstream cells: the nearest valid values upstream); it stays empty iff none does *)
+Theorem fill_down_pairs j : (j < size ds)%nat ->
+  pr j = if nth j data 0 =? nodata then merge_fold (map (fun c => pr c) (kids ds P j)) (nodata, false)
+         else (nth j data 0, true).
 Proof.
-  intros Hj. unfold out, fillnodata_downstream. fold P.
-  rewrite (sweep_up_char ds 0 (fun _ x => x) (fdown_g ds data nodata how) P) at 1; auto;
-    [|unfold P; apply topo_utopo; auto].
-  assert (Hfz : forall x, fz (fun _ (x : Z) => x) P j x = x) by (intros x; unfold fz; destruct (in_dec Nat.eq_dec j P); auto).
+  intros Hj. unfold prs, fill_pairs. fold P.
+  rewrite (sweep_up_char ds (0, false) (fun _ x => x) (fdown_g ds data nodata how) P) at 1; auto;
+    [|unfold P; apply topo_utopo; auto|rewrite map_length; auto].
+  assert (Hfz : forall x, fz (fun _ (x : Z * bool) => x) P j x = x) by (intros x; unfold fz; destruct (in_dec Nat.eq_dec j P); auto).
   rewrite Hfz.
+  assert (Hinit : nth j (map (fun v => (v, negb (v =? nodata))) data) (0, false) = (nth j data 0, negb (nth j data 0 =? nodata))).
+  { rewrite (nth_indep _ (0, false) ((fun v => (v, negb (v =? nodata))) 0)) by (rewrite map_length, Hl; auto). exact (map_nth (fun v => (v, negb (v =? nodata))) data 0 j). }
+  rewrite Hinit.
   assert (Hk : forall c, In c (kids ds P j) -> dsf ds c = j) by (intros c Hc; apply kids_mem in Hc; tauto).
   destruct (Z.eqb_spec (nth j data 0) nodata) as [E|E].
   - rewrite (fold_fdown_nodata _ j _ Hk E). rewrite E. reflexivity.
-  - apply (fold_fdown_valid _ j _ Hk E).
+  - rewrite (fold_fdown_valid _ j _ Hk E). reflexivity.
 Qed.
 
-(* closed forms of the merge: min / max of the valid values (never the sentinel) *)
-Lemma merge_fold_none vals : (forall v, In v vals -> v = nodata) -> merge_fold vals nodata = nodata.
-Proof. induction vals as [|v vals IH]; intros H; simpl; auto.
-  rewrite (H v (or_introl eq_refl)), Z.eqb_refl. simpl. apply IH. intros x Hx. apply H. right; auto. Qed.
+(* the merge in closed form: nothing if no upstream cell holds a value, else the min / max / sum of those that do *)
+Lemma merge_fold_closed vals x : merge_fold vals (x, false) =
+  match filter snd vals with
+  | [] => (x, false)
+  | v :: vs => (fold_left (fun a w => merge how (fst w) a) vs (fst v), true)
+  end.
+Proof.
+  unfold merge_fold.
+  assert (G : forall vs a, fold_left (fun (acc v : Z * bool) => if snd v then (if snd acc then (merge how (fst v) (fst acc), true) else (fst v, true)) else acc) vs (a, true)
+                           = (fold_left (fun a w => merge how (fst w) a) (filter snd vs) a, true)).
+  { induction vs as [|v vs IH]; intros a; simpl; auto. destruct (snd v); simpl; apply IH. }
+  induction vals as [|v vals IH]; simpl; auto.
+  destruct (snd v) eqn:E; simpl; [apply G|apply IH].
+Qed.
+
+Theorem fill_down_spec j : (j < size ds)%nat ->
+  nth j (fillnodata_downstream ds sq data nodata how) 0 =
+  if nth j data 0 =? nodata then fst (merge_fold (map (fun c => pr c) (kids ds P j)) (nodata, false)) else nth j data 0.
+Proof.
+  intros Hj. unfold fillnodata_downstream. fold prs.
+  assert (Hlen : length prs = size ds).
+  { unfold prs, fill_pairs. rewrite sweep_up_length, map_length. exact Hl. }
+  rewrite (nth_indep _ 0 (fst (0, false))) by (rewrite map_length, Hlen; auto).
+  rewrite (map_nth fst). rewrite (fill_down_pairs j Hj). destruct (nth j data 0 =? nodata); reflexivity.
+Qed.
 End FillDown.
 
 (* ---------- window ---------- *)
